@@ -89,6 +89,7 @@ def make_conn(nmax=12):
 
 
 _AST = {}
+BIG = 600      # rows of the table used by the occasional large histories
 
 
 def stmt_for(size):
@@ -163,10 +164,10 @@ def classify(msg):
     return 'c10.fetch'
 
 
-def run_history(ctx, history, label, lite=None):
+def run_history(ctx, history, label, lite=None, nmax=12):
     """history: list of ops: ('new',cid) ('exec',cid,size) ('one',cid) ('many',cid,n|None) ('all',cid)
     ('iter',cid,k|None) ('arraysize',cid,n) ('desc',cid). Returns list of problems."""
-    conn, table_rows = make_conn()
+    conn, table_rows = make_conn(nmax)
     cursors = {}
     models = {}
     problems = []
@@ -301,7 +302,7 @@ def run(ctx):
     install_contracts()
     lite = sqlite3.connect(':memory:')
     lite.execute('CREATE TABLE t (k INTEGER, s TEXT)')
-    lite.executemany('INSERT INTO t VALUES (?, ?)', [(i, f's{i % 3}') for i in range(12)])
+    lite.executemany('INSERT INTO t VALUES (?, ?)', [(i, f's{i % 3}') for i in range(BIG)])
     # exhaustive part
     ops = [('one',), ('many', 1), ('many', 3), ('all',), ('exec',)]
     idx = 0
@@ -334,6 +335,12 @@ def run(ctx):
             break
         hist = [('new', 0)]
         ncur = 1
+        big = rng.random() < 0.04
+        sizes = [0, 1, 2, 3, 5, 8, 12] if not big else [0, 1, 63, 64, 100, 257, 512, BIG]
+        many = [None, None, 0, 1, 2, 3, 5] if not big else [None, 1, 7, 64, 100, 256, 1000]
+        asizes = [1, 2, 5] if not big else [1, 10, 100, 1000]
+        if big:
+            ctx.count('random.large_histories')
         for _ in range(rng.randint(1, 25)):
             r = rng.random()
             cid = rng.randrange(ncur)
@@ -343,25 +350,25 @@ def run(ctx):
             elif r < 0.10:
                 # a cursor returned by Connection.execute(), new or replacing the handle cid
                 if ncur < 4 and rng.random() < 0.6:
-                    hist.append(('cexec', ncur, rng.choice([0, 1, 3, 5, 8])))
+                    hist.append(('cexec', ncur, rng.choice(sizes)))
                     ncur += 1
                 else:
-                    hist.append(('cexec', cid, rng.choice([0, 1, 3, 5, 8])))
+                    hist.append(('cexec', cid, rng.choice(sizes)))
             elif r < 0.25:
-                hist.append(('exec', cid, rng.choice([0, 1, 2, 3, 5, 8, 12])))
+                hist.append(('exec', cid, rng.choice(sizes)))
             elif r < 0.45:
                 hist.append(('one', cid))
             elif r < 0.65:
-                hist.append(('many', cid, rng.choice([None, None, 0, 1, 2, 3, 5])))
+                hist.append(('many', cid, rng.choice(many)))
             elif r < 0.75:
                 hist.append(('all', cid))
             elif r < 0.85:
                 hist.append(('iter', cid, rng.choice([None, None, 1, 2])))
             elif r < 0.92:
-                hist.append(('arraysize', cid, rng.choice([1, 2, 5])))
+                hist.append(('arraysize', cid, rng.choice(asizes)))
             else:
                 hist.append(('desc', cid))
-        problems, ndeliv = run_history(ctx, hist, 'random', lite)
+        problems, ndeliv = run_history(ctx, hist, 'random', lite, nmax=BIG if big else 12)
         ctx.case(('rnd', tuple(hist)), ndeliv >= 2)
         ctx.count('random.executed')
         if len(ctx.samples) < 3 and ndeliv >= 2:
@@ -382,7 +389,8 @@ def replay(ctx, case):
     engine.bq()
     install_contracts()
     hist = [tuple(h) for h in case['history']]
-    problems, _ = run_history(ctx, hist, 'replay', None)
+    nmax = BIG if any(len(h) > 2 and isinstance(h[2], int) and h[2] > 12 for h in hist if h[0] in ('exec', 'cexec')) else 12
+    problems, _ = run_history(ctx, hist, 'replay', None, nmax=nmax)
     report(ctx, problems, hist)
 
 
